@@ -74,7 +74,8 @@ def strategy(tier, campaign):
     return st.fixed_dictionaries({
         "kind": st.just("actors"),
         "engine": st.sampled_from(["async", "sync"]),
-        "ops": st.lists(st.sampled_from(["SPAWN_ID", "SPAWN_AUTO", "SPAWN_SYS", "TELL_ID", "TELL_SYS", "TELL_KEY", "TELL_SVC", "NOOP"]), min_size=2, max_size=9),
+        "ops": st.lists(st.sampled_from(["SPAWN_ID", "SPAWN_AUTO", "SPAWN_SYS", "SPAWN_SYS", "TELL_ID", "TELL_SYS", "TELL_KEY", "TELL_SVC", "NOOP",
+                                         "GRAND_K1", "GRAND_K1", "FIN", "DIRECT_SYS", "DIRECT_SYS", "DIRECT_DEEP"]), min_size=2, max_size=9),
         "cut": st.integers(1, 9),
     })
 
@@ -282,9 +283,13 @@ def _actor_machines(rec_log):
     def kid_log(i, c, e, a):
         c["got"] = list(c.get("got") or []) + [e.payload.get("seq")]
 
-    kid = create_machine({"id": "kid", "initial": "a", "context": {"got": []}, "states": {
+    grand = create_machine({"id": "grand", "initial": "a", "context": {"got": []}, "states": {
         "a": {"on": {"PING": {"target": "b", "actions": ["kid_log"]}}},
         "b": {"on": {"PING": {"target": "a", "actions": ["kid_log"]}}}}}, logic=MachineLogic(actions={"kid_log": kid_log}))
+    spawn_g = {"actions": [{"type": "xstate.spawnChild", "params": {"src": "grand", "id": "g", "systemId": "deep"}}]}
+    kid = create_machine({"id": "kid", "initial": "a", "context": {"got": []}, "on": {"GRAND": spawn_g}, "states": {
+        "a": {"on": {"PING": {"target": "b", "actions": ["kid_log"]}}},
+        "b": {"on": {"PING": {"target": "a", "actions": ["kid_log"]}}}}}, logic=MachineLogic(actions={"kid_log": kid_log}, services={"grand": grand}))
     parent_cfg = {"id": "par", "initial": "on", "context": {"n": 0}, "states": {"on": {"on": {
         "SPAWN_ID": {"actions": [{"type": "xstate.spawnChild", "params": {"src": "kid", "id": "k1"}}]},
         "SPAWN_AUTO": {"actions": [{"type": "spawn_kid"}]},
@@ -294,7 +299,9 @@ def _actor_machines(rec_log):
         "TELL_KEY": {"actions": [{"type": "xstate.sendTo", "params": {"to": "k1", "event": lambda a: {"type": "PING", "seq": a["event"].payload.get("seq")}}}]},
         "TELL_SVC": {"actions": [{"type": "xstate.sendTo", "params": {"to": "kid", "event": lambda a: {"type": "PING", "seq": a["event"].payload.get("seq")}}}]},
         "NOOP": {"actions": []},
-    }}}}
+        "GRAND_K1": {"actions": [{"type": "xstate.sendTo", "params": {"to": "par:k1", "event": {"type": "GRAND"}}}]},
+        "FIN": "fin",
+    }}, "fin": {"type": "final"}}}
     parent = create_machine(parent_cfg, logic=MachineLogic(services={"kid": kid}))
     return parent
 
@@ -312,13 +319,22 @@ def _actor_view(interp):
     def norm(s):
         return {
             "status": s["status"], "context": s["context"], "configuration": s["configuration"],
-            "actors": sorted(((_norm_actor_id(k), norm(v["snapshot"])["context"], norm(v["snapshot"])["configuration"], v["src"]) for k, v in s["actors"].items()),
+            "actors": sorted(((_norm_actor_id(k), norm(v["snapshot"])["context"], norm(v["snapshot"])["configuration"], v["src"],
+                               norm(v["snapshot"])["status"], norm(v["snapshot"])["actors"]) for k, v in s["actors"].items()),
                              key=lambda t: json.dumps(t, sort_keys=True, default=repr)),
             "system": sorted((k, _norm_actor_id(v)) for k, v in s["system"].items()),
         }
 
     live_sys = sorted((k, _norm_actor_id(v.id)) for k, v in interp.system.get_all().items())
     return {"snap": norm(snap), "system": live_sys}
+
+
+def _all_actors(it):
+    out = []
+    for a in list(getattr(it, "_actors", {}).values()):
+        out.append(a)
+        out.extend(_all_actors(a))
+    return out
 
 
 def _run_actors(engine, ops, cut):
@@ -339,15 +355,23 @@ def _run_actors(engine, ops, cut):
                     await it.stop()
                     it = Interpreter.from_snapshot(s, _actor_machines(None))
                     await it.start()
-                await it.send(Event(op, {"seq": i}))
-                for _ in range(20):
-                    await asyncio.sleep(0)
-                    if not loop._ready:
-                        break
-                await it._event_queue.join()
-                for a in list(it._actors.values()):
-                    if getattr(a, "_event_loop_task", None) is not None:
-                        await a._event_queue.join()
+                if op in ("DIRECT_SYS", "DIRECT_DEEP"):
+                    # the continuation talks to a registered actor directly (the parent may be done)
+                    a = it.system.get("sysk" if op == "DIRECT_SYS" else "deep")
+                    if a is not None:
+                        await a.send(Event("PING", {"seq": i}))
+                else:
+                    await it.send(Event(op, {"seq": i}))
+                for _ in range(3):
+                    for _ in range(20):
+                        await asyncio.sleep(0)
+                        if not loop._ready:
+                            break
+                    if getattr(it, "_event_loop_task", None) is not None and not it._event_loop_task.done():
+                        await it._event_queue.join()
+                    for a in _all_actors(it):
+                        if getattr(a, "_event_loop_task", None) is not None and not a._event_loop_task.done():
+                            await a._event_queue.join()
                 views.append(_actor_view(it))
             await it.stop()
 
@@ -365,7 +389,12 @@ def _run_actors(engine, ops, cut):
                     it.stop()
                     sched.settle()
                     it = SyncInterpreter.from_snapshot(s, _actor_machines(None))
-                it.send(Event(op, {"seq": i}))
+                if op in ("DIRECT_SYS", "DIRECT_DEEP"):
+                    a = it.system.get("sysk" if op == "DIRECT_SYS" else "deep")
+                    if a is not None:
+                        a.send(Event("PING", {"seq": i}))
+                else:
+                    it.send(Event(op, {"seq": i}))
                 sched.settle()
                 views.append(_actor_view(it))
             it.stop()
